@@ -248,6 +248,7 @@ static verif::Result exec(const Script& sc, const verif::Config& cfg)
 {
     Ver::reset();
     verif::begin(cfg);
+    verif::g_post_unlock_sched = 1;  // the window between a release of the writer mutex and what the thread does next
     std::fill(flags().begin(), flags().end(), 0);
     verif::emit("cfg cow " + sc.config);
     {
@@ -374,6 +375,9 @@ int main(int argc, char** argv)
         // a snapshot that is the last reference of an old version: destroyed by the drop, not by the release
         parse("-;S,L,w,U,r,L,w,U,r,D,S,D"),
         parse("-;S,L,w,X,r,L,w,w,X,S,r,D;S,r,L,w,X,r"),
+        // cancel under contention: a second writer waits for the writer mutex and runs a whole transaction as soon as it is free
+        parse("-;L,w,C,S,r,D,L,w,C,S,r;L,w,U,S,r,L,w,U;S,r,D,S,r"),
+        parse("-;L,w,w,C,L,w,U,S,r;L,w,U,L,w,C,S,r"),
         // readers parked inside lock_shared (registered, side flag loaded) while a writer releases: second wait loop
         parse("-;G4:rl0,S,r,D;W:g1,L,w,U"),
         parse("-;L,w,U,G4:rl1,S,r,D;W:g1,L,w,U"),
